@@ -74,6 +74,34 @@ def run_harness(binary, args, timeout=600, env=None):
     return p.returncode, p.stdout, p.stderr, time.time() - t0
 
 
+def crash_report(stderr):
+    """If the driver process died from a Go panic / fatal error, returns
+    (message, where): where is 'repo' when the innermost non-runtime frame of the
+    panicking goroutine lies in github.com/henrylee2cn/erpc/v6 (the real code
+    crashed the process), 'harness' otherwise."""
+    m = re.search(r'^(panic: .*|fatal error: .*)$', stderr, re.M)
+    if not m:
+        return None
+    msg = m.group(1).strip()
+    rest = stderr[m.end():]
+    # frames of the first goroutine printed after the message
+    g = rest.split('\n\n', 2)
+    block = g[0] if g[0].strip().startswith('goroutine') or 'goroutine' in g[0] else (g[1] if len(g) > 1 else rest)
+    if 'goroutine' not in block and len(g) > 1:
+        block = g[1]
+    where = 'harness'
+    for line in block.splitlines():
+        line = line.strip()
+        if not line or line.startswith('goroutine') or line.startswith('/') or line.startswith('panic(') or line.startswith('created by'):
+            continue
+        if line.startswith('runtime.') or line.startswith('sync.') or line.startswith('sync/') or line.startswith('internal/') or line.startswith('reflect.'):
+            continue
+        if 'github.com/henrylee2cn/erpc/v6' in line:
+            where = 'repo'
+        break
+    return msg, where
+
+
 # --------------------------------------------------------------------------
 # TLC
 
